@@ -728,6 +728,17 @@ func (p *Peer) InitAllTables(ctx context.Context) (err error) {
 	p.lastFullServiceUpdate.Set(now)
 	p.lastFullHostUpdate.Set(now)
 
+	// if this fails while the previous objects are still served, the restart of the backend must not be forgotten,
+	// otherwise the next delta update would find the new program_start already known and keep the old objects
+	prevProgramStart := p.programStart.Load()
+	prevCorePid := p.corePid.Load()
+	defer func() {
+		if err != nil && p.data.Load() != nil {
+			p.programStart.Store(prevProgramStart)
+			p.corePid.Store(prevCorePid)
+		}
+	}()
+
 	data := NewDataStoreSet(p)
 	time1 := time.Now()
 
